@@ -40,6 +40,11 @@ TRANSPARENT = {
     "alloc::vec::Vec::<T, A>::as_slice", "core::ops::index::Index::index",
     "alloc::boxed::Box::<T>::new", "alloc::boxed::Box::<T>::pin", "alloc::sync::Arc::<T>::new",
     "core::pin::Pin::<Ptr>::as_mut", "core::pin::Pin::<Ptr>::new",
+    # lock acquisitions: the guard "is" the locked field for receiver slicing
+    "lock_api::rwlock::RwLock::<R, T>::read", "lock_api::rwlock::RwLock::<R, T>::write",
+    "lock_api::mutex::Mutex::<R, T>::lock", "lock_api::rwlock::RwLock::<R, T>::upgradable_read",
+    "std::sync::poison::mutex::Mutex::<T>::lock", "std::sync::poison::rwlock::RwLock::<T>::read",
+    "std::sync::poison::rwlock::RwLock::<T>::write",
 }
 
 
@@ -410,6 +415,9 @@ class Fn:
                         r.line = t.get("ln", 0)
                         evs.append(r)
         # map poll sites back to the call that constructed the awaited future
+        self._events = evs          # phase-1 events are visible to the slicer below
+        self._ev_at = {e.call_block: e for e in evs if e.kind == "call"}
+        self._cr_at = {(e.block, e.idx): e for e in evs if e.kind == "create"}
         for e in list(evs):
             if e.kind == "call" and e.callee == POLL:
                 origins = self.slice_back_op(e.args[0], through=lambda ev: ev.callee in (PIN_NEW_UNCHECKED, INTO_FUTURE,
@@ -473,7 +481,7 @@ class Fn:
             return [("const", k)] if k is not None else []
         return self.slice_back_local(p.l, through=through, seen=seen, proj=p)
 
-    def slice_back_local(self, l, through=None, seen=None, proj=None):
+    def slice_back_local(self, l, through=None, seen=None, proj=None, agg_descend=True):
         """Origins of the value in local `l`: list of (kind, obj).
 
         kinds: call (Event), create (Event), const (dict), arg (local index), upvar (name),
@@ -485,8 +493,9 @@ class Fn:
             seen = set()
         out = []
         work = [(l, proj)]
-        ev_at = {(e.call_block if e.kind == "call" else e.block, e.kind): e for e in self.events if e.kind == "call"}
-        cr_at = {(e.block, e.idx): e for e in self.events if e.kind == "create"}
+        self.events
+        ev_at = self._ev_at
+        cr_at = self._cr_at
         while work:
             l, proj = work.pop()
             if l in seen:
@@ -505,7 +514,7 @@ class Fn:
                 out.append(("arg", l))
             for (b, i, kind, data) in ds:
                 if kind == "call":
-                    ev = ev_at.get((b, "call"))
+                    ev = ev_at.get(b)
                     if ev is None:
                         continue
                     if through(ev):
@@ -536,7 +545,7 @@ class Fn:
                             out.append(("create", cr_at[(b, i)]))
                         else:
                             out.append(("agg", data))
-                            for o in rv["ops"]:
+                            for o in (rv["ops"] if agg_descend else ()):
                                 ap = op_place(o)
                                 if ap is not None:
                                     work.append((ap.l, ap))
@@ -551,6 +560,65 @@ class Fn:
                                 out.append(("const", op_const(o)))
                     else:
                         out.append(("other", data))
+        return out
+
+    def slice_fields(self, o, through=None):
+        """Field names mentioned by places on the backward slice of operand `o`
+        (e.g. the receiver `self.operation_gate.clone()` yields {'operation_gate'})."""
+        out = set()
+        p = op_place(o)
+        if p is None:
+            return out
+        if through is None:
+            through = lambda ev: ev.callee in TRANSPARENT
+        self.events
+        seen = set()
+        work = [p]
+        while work:
+            pl = work.pop()
+            out.update(pl.fields())
+            if pl.l in seen:
+                continue
+            seen.add(pl.l)
+            if pl.l == 1 and self.kind == "Closure":
+                continue
+            for (b, i, kind, data) in self.defs.get(pl.l, []):
+                if kind == "call":
+                    ev = self._ev_at.get(b)
+                    if ev is not None and through(ev):
+                        for a in ev.args:
+                            ap = op_place(a)
+                            if ap is not None:
+                                work.append(ap)
+                else:
+                    rv = data[2]
+                    for o2 in _rvalue_operands(rv):
+                        ap = op_place(o2)
+                        if ap is not None:
+                            work.append(ap)
+                    if rv["k"] in ("ref", "rawptr", "cfd", "discr"):
+                        work.append(Place(rv["p"]))
+        return out
+
+    def value_origins(self, l):
+        """Where the value switched on / used in local `l` was produced: list of
+        ('event', Event) for call/await results (poll sites are mapped to the awaited event),
+        ('agg', adt, variant) for enum/struct literals, ('const', k), ('arg', n), ('other', x)."""
+        out = []
+        self.events
+        poll2ev = {e.poll_block: e for e in self._events if e.awaited and e.poll_block is not None}
+        for o in self.slice_back_local(l, through=lambda ev: ev.callee in (TRY_BRANCH,), agg_descend=False):
+            if o[0] == "call":
+                ev = o[1]
+                if ev.callee == POLL and ev.call_block in poll2ev:
+                    out.append(("event", poll2ev[ev.call_block]))
+                else:
+                    out.append(("event", ev))
+            elif o[0] == "agg":
+                a = o[1][2]["a"]
+                out.append(("agg", a.get("def"), a.get("v")))
+            else:
+                out.append(o)
         return out
 
     def derived_locals(self, start_locals, through=None, include_call_results=True, call_filter=None):
@@ -835,6 +903,41 @@ class Program:
                     seen.add(c)
                     dq.append(c)
         return seen
+
+    def all_nodes_rev(self):
+        if not hasattr(self, "_rev"):
+            rev = defaultdict(set)
+            for fid in self.fns:
+                for c in self.callees(fid):
+                    rev[c].add(fid)
+            self._rev = rev
+        return self._rev
+
+    def reaching(self, is_target, stop=None):
+        """Set of call-graph nodes (fn ids and the matching target nodes themselves) from which a node
+        satisfying is_target(node, fn) is reachable.  Propagation does not continue *through* fns for
+        which stop(node, fn) holds (they are included themselves, their callers are not added via them)."""
+        rev = self.all_nodes_rev()
+        targets = set()
+        for n in list(rev.keys()) + list(self.fns.keys()):
+            if is_target(n, self.fns.get(n)):
+                targets.add(n)
+        seen = set(targets)
+        dq = deque(targets)
+        while dq:
+            n = dq.popleft()
+            if stop is not None and n in self.fns and n not in targets and stop(n, self.fns[n]):
+                continue
+            if stop is not None and n in self.fns and n in targets and stop(n, self.fns[n]):
+                continue
+            for p in rev.get(n, ()):
+                if p not in seen:
+                    seen.add(p)
+                    dq.append(p)
+        return seen
+
+    def event_in(self, e, nodeset):
+        return any(n in nodeset for n in self.callee_nodes(e))
 
     def find_path(self, start_id, is_target, stop=None):
         """Shortest call-graph path from start to a node satisfying is_target(node_key, fn_or_None)."""
